@@ -228,8 +228,14 @@ func (rn *runner) recoverAll() *simcore.Violation {
 		return v
 	}
 	for _, st := range rec {
+		if rn.failed() {
+			return nil
+		}
 		if v := rn.recoverOne(st); v != nil {
 			return v
+		}
+		if rn.failed() {
+			return nil
 		}
 		if v, _ := rn.checkRecoverable(); v != nil {
 			v.Msg = fmt.Sprintf("after Recover to state #%d: %s", st.idx, v.Msg)
